@@ -1461,6 +1461,10 @@ func (d *Data) ServeHTTP(uuid dvid.UUID, ctx *datastore.VersionedCtx, w http.Res
 			server.BadRequest(w, r, fmt.Sprintf("Error reading batchsize query string: %v", err))
 			return
 		}
+		if batchsize < 1 {
+			server.BadRequest(w, r, fmt.Sprintf("batchsize must be at least 1, got %d", batchsize))
+			return
+		}
 
 		var jsonBytes []byte
 		optimizedStr := queryStrings.Get("optimized")
